@@ -24,5 +24,7 @@ def check(ctx, rep):
     _par14.par_14(ctx, rep)     # INDENT / DEDENT bookkeeping sees every token once (not the tokens recovery re-feeds)
     from ..rules import tok as _tok13
     _tok13.tok_13(ctx, rep)     # the indentation of a logical line is decided once
+    from ..rules import rxr as _rx14
+    _rx14.rx_14(ctx, rep)       # no exponentially ambiguous pattern: the matcher terminates in practice on every text
     rep.note('Not decided: absence of every implicit exception; the shape clauses (root has no parent, last child is '
              'the end marker).')
